@@ -295,12 +295,16 @@ Proof. unfold restrict. intros H. apply filter_In in H. apply H. Qed.
 Definition validating (m : method) : bool :=
   match m with MEmptiness | MMulti | MSingle => true | _ => false end.
 
-Lemma validate_le (s : sys) m prop cur p :
+(* each method's validator re-checks the budgets of the method's own reason *)
+Lemma validator_reason_own m : validator_reason m = method_reason m.
+Proof. destruct m; reflexivity. Qed.
+
+Lemma validate_under_le r (s : sys) m prop cur p :
   validating m = true ->
-  count_pool p (validate s m prop cur) <= mapping_of s (method_reason m) p.
+  count_pool p (validate_under sid next r s m prop cur) <= mapping_of s r p.
 Proof.
-  pose proof (mapping_of_nonneg s (method_reason m)) as Hn.
-  unfold Model.validate. destruct m; try discriminate; intros _.
+  pose proof (mapping_of_nonneg s r) as Hn.
+  unfold Model.validate_under. destruct m; try discriminate; intros _.
   - apply validate_filter_le, Hn.
   - destruct ((length (restrict prop cur) =? length prop)%nat && validate_all _ (restrict prop cur))%bool eqn:E.
     + apply andb_true_iff in E. apply (validate_all_le _ _ _ Hn (proj2 E)).
@@ -310,10 +314,21 @@ Proof.
     + rewrite count_pool_nil. apply Hn.
 Qed.
 
+Lemma validate_le (s : sys) m prop cur p :
+  validating m = true ->
+  count_pool p (validate s m prop cur) <= mapping_of s (method_reason m) p.
+Proof.
+  intros Hv. unfold Model.validate.
+  destruct m; try discriminate;
+    [exact (validate_under_le Empty s MEmptiness prop cur p eq_refl)
+    |exact (validate_under_le Underutilized s MMulti prop cur p eq_refl)
+    |exact (validate_under_le Underutilized s MSingle prop cur p eq_refl)].
+Qed.
+
 Lemma validate_incl (s : sys) m prop cur c :
   validating m = true -> In c (validate s m prop cur) -> In c cur.
 Proof.
-  unfold Model.validate. destruct m; try discriminate; intros _.
+  unfold Model.validate, Model.validate_under. destruct m; try discriminate; intros _.
   - intros H. apply validate_filter_incl in H. apply (restrict_incl _ _ _ H).
   - destruct (_ && _)%bool; [apply restrict_incl|intros []].
   - destruct (_ && _)%bool; [apply restrict_incl|intros []].
